@@ -1,10 +1,14 @@
-(* Model/C14SpPath.v — the re-keying inside sptensor.nvecs as the code runs it (pyttb/sptensor.py, nvecs):
-     old = np.setdiff1d(np.arange(self.ndims), n)
-     M   = self.copy().reshape((prod(shape[old]), 1), old).squeeze()        (a float when every mode is a singleton: ValueError)
+(* Model/C14SpPath.v — the re-keying inside sptensor.nvecs as the code runs it (pyttb/sptensor.py, nvecs; after /repo f3d6beb, which
+   repaired finding C14-F2: a second reshape instead of squeeze()):
+     old      = np.setdiff1d(np.arange(self.ndims), n)
+     reshaped = self.copy().reshape((prod(shape[old]), 1), old)              shape (I_n, K, 1)
+     all(s == 1 for s in reshaped.shape): ValueError("... only singleton dimensions")
+     M        = reshaped.reshape(reshaped.shape[:2])                         shape (I_n, K); old_modes = None: all modes
      tnt = M.spmatrix().transpose();   y = tnt.transpose().dot(tnt)
    sptensor.reshape(new_shape, old_modes) is transliterated over the GENERATED tt_sub2ind / tt_ind2sub (Gen/GenUtils.v, regenerated
-   from pyttb/pyttb_utils.py on every run), sptensor.squeeze literally, spmatrix is C01's (Model/C01Coo.v).
-   Definitions only; proofs in Proofs/C14SpPath.v. *)
+   from pyttb/pyttb_utils.py on every run), spmatrix is C01's (Model/C01Coo.v).  sptensor.squeeze (the path before f3d6beb) is kept
+   as sp_squeeze / sp_nvecs_tnt_old: Proofs/C14SpPath.v proves that the old path refused exactly the requests the repaired one now
+   answers.  Definitions only; proofs in Proofs/C14SpPath.v. *)
 From Coq Require Import List Arith Lia Bool ZArith.
 From PV Require Import Base.Index Base.Perm Base.Sum Np.Array Np.NpZ Proofs.NpZProofs Model.Sparse Model.Repr Model.C01Conv Model.C01Unique
                        Model.C01Coo Gen.GenUtils Model.C14Nvecs Model.C14Gram.
@@ -61,8 +65,9 @@ Definition sp_squeeze (S : sparse V) : sq_res :=
 (* coo_matrix.transpose(): rows and columns exchanged, data kept *)
 Definition coo_transpose (C : coo V) : coo V := mkCoo (rev (coo_shape C)) (map (@rev nat) (coo_subs C)) (coo_data C).
 
-(* tnt of sptensor.nvecs; None = the request is refused (AssertionError of reshape / spmatrix, ValueError for a scalar) *)
-Definition sp_nvecs_tnt (S : sparse V) (n : nat) : option (coo V) :=
+(* tnt of sptensor.nvecs before /repo f3d6beb (squeeze); None = the request is refused (AssertionError of reshape / spmatrix,
+   ValueError for a scalar) *)
+Definition sp_nvecs_tnt_old (S : sparse V) (n : nat) : option (coo V) :=
   let old := setdiff_modes (length (sshape S)) [n] in
   match sp_reshape_gen S [size (pick 0 old (sshape S)); 1] old with
   | Some R =>
@@ -70,6 +75,21 @@ Definition sp_nvecs_tnt (S : sparse V) (n : nat) : option (coo V) :=
       | SqScalar _ => None
       | SqTensor Q => option_map coo_transpose (spmatrix Q)
       end
+  | None => None
+  end.
+
+(* tnt of sptensor.nvecs as the code runs it now; None = the request is refused (AssertionError of reshape / spmatrix, ValueError
+   when every mode of the reshaped tensor is a singleton).  `reshape(new_shape)` without old_modes reshapes ALL modes:
+   old_modes = np.arange(ndims), keep_modes = [] *)
+Definition sp_nvecs_tnt (S : sparse V) (n : nat) : option (coo V) :=
+  let old := setdiff_modes (length (sshape S)) [n] in
+  match sp_reshape_gen S [size (pick 0 old (sshape S)); 1] old with
+  | Some R =>
+      if forallb (Nat.eqb 1) (sshape R) then None
+      else match sp_reshape_gen R (firstn 2 (sshape R)) (seq 0 (length (sshape R))) with
+           | Some Q => option_map coo_transpose (spmatrix Q)
+           | None => None
+           end
   | None => None
   end.
 
